@@ -40,7 +40,7 @@ ASSUMPTIONS = [
     "width/height of the description come from the P2P table (largest listed "
     "coordinate + 1)",
 ]
-FLOORS = {"own_core_resource": 100, "survey_from_a_named_chip": 20, "iobuf_chain_of_hundreds": 3, "description_iterator_nested": 80, "code_name_compared": 100, "iobuf_non_ascii": 15, "system_info_checked": 150, "chip_info_compared": 1200,
+FLOORS = {"machine_model_own_resource_names": 50, "own_core_resource": 100, "survey_from_a_named_chip": 20, "iobuf_chain_of_hundreds": 3, "description_iterator_nested": 80, "code_name_compared": 100, "iobuf_non_ascii": 15, "system_info_checked": 150, "chip_info_compared": 1200,
           "machine_model_checked": 150, "core_constraints_checked": 150,
           "processor_status_checked": 150, "iobuf_checked": 150,
           "p2p_table_checked": 100, "unresponsive_chip": 100}
@@ -379,6 +379,29 @@ def run(case, ctx):
           "machine-links",
           repr(sorted({(x, y, int(l)) for x, y, l in machine.iter_links()} ^
                       want_links)[:6]))
+    if (w + 2 * h + len(responding)) % 3 == 0:
+        # the same model under the caller's own names for the resources (by
+        # keyword, or by position in the documented order)
+        names = dict(core_resource=("my", "cores"), sdram_resource="heap",
+                     sram_resource=("sram", 1))
+        m2 = pr_utils.build_machine(si, **names) if (w + h) % 2 else \
+            pr_utils.build_machine(si, names["core_resource"],
+                                   names["sdram_resource"],
+                                   names["sram_resource"])
+        ctx.hit("machine_model_own_resource_names")
+        check(set(m2) == responding and
+              (m2.width, m2.height) == (ew, eh) and
+              {(x, y, int(l)) for x, y, l in m2.iter_links()} == want_links,
+              "machine-chips", "model built with own resource names differs "
+              "in chips / links")
+        for xy in responding:
+            d = chips[xy]
+            check(dict(m2[xy]) == {names["core_resource"]: d["ncores"],
+                                   names["sdram_resource"]: d["sdram"],
+                                   names["sram_resource"]: d["sram"]},
+                  "machine-chip-resources", "own resource names, chip %r: %r; "
+                  "machine has cores %d sdram %d sram %d" %
+                  (xy, m2[xy], d["ncores"], d["sdram"], d["sram"]))
     import warnings as _w
     with _w.catch_warnings():
         _w.simplefilter("ignore")
